@@ -1241,6 +1241,9 @@ class FuncVerifier(object):
                 return PyConst(-v.value)
             if isinstance(v, (Ref, View, AV)):
                 return self.bin(ast.Sub(), z3.IntVal(0), v, st, n)
+            if is_z3(v) and v.sort() == CPLX:
+                from .engine import cneg
+                return cneg(v)
             return -as_num(v)
         raise OutOfFragment('unary operator %s' % type(n.op).__name__, n)
 
@@ -1369,6 +1372,9 @@ class FuncVerifier(object):
             return PyConst(f())
         arr_a = isinstance(a, (Ref, View, AV))
         arr_b = isinstance(b, (Ref, View, AV))
+        if not arr_a and not arr_b and isinstance(op, ast.Mult) and ((is_z3(a) and a.sort() == CPLX) or (is_z3(b) and b.sort() == CPLX)):
+            from .engine import cmul
+            return cmul(self.cplx_of(a), self.cplx_of(b))      # product of two complex scalars (abstract)
         if arr_a or arr_b:
             av_a = self.deref(a, st) if arr_a else as_num(a)
             av_b = self.deref(b, st) if arr_b else as_num(b)
